@@ -1042,6 +1042,10 @@ class BorderPoint(Harness):
             out.append(dict(shape='square', rot=rot, half='any'))
         # ratio exactly 1 (the code substitutes 1 - 1e-15)
         out.append(dict(shape='square', rot=0.0, half='any', ratio=1.0))
+        # ratio exactly 0: the "border" point scaled to the centre
+        out.append(dict(shape='square', rot=0.0, half='any', ratio=0.0))
+        out.append(dict(shape='hex', rot=30.0, half='upper', ratio=0.0))
+        out.append(dict(shape='rect', rot=0.0, half='upper', ratio=0.0))
         if not q:
             for half in ('upper', 'lower'):
                 out.append(dict(shape='hex', rot=0.0, half=half, ratio=1.0))
@@ -1111,6 +1115,10 @@ class BorderPoint(Harness):
                       And(_c(S.users[0].relative_pos) == _c(P) - pos,
                           S.users[0].cell_id == 3))
             scale, unit2 = r, 1
+        if cfg.get('ratio') == 0.0:
+            # scaled all the way to the centre
+            ctx.prove('ratio-0-is-the-centre', _c(P) == pos)
+            return
         d = SComplex(ca, sa)
         B = (_c(P) - pos) / ratio / scale
         W = [(_c(v) - pos) / scale for v in S.vertices]
@@ -1142,6 +1150,10 @@ class BorderPoint(Harness):
             P = S.users[0].pos
         V = [complex(v) for v in S.vertices]
         size_f = max(abs(v - pos) for v in V)
+        if ratio == 0:
+            bad = ['ratio-0-not-centre'] if abs(P - pos) > 1e-9 * size_f \
+                else []
+            return bad, dict(point=P, vertices=V)
         B = pos + (P - pos) / ratio
         d = complex(math.cos(math.radians(ang)), math.sin(math.radians(ang)))
         off = B - pos
@@ -1168,6 +1180,10 @@ class BorderPoint(Harness):
             float(m.get('ratio', 1.0)) or 1.0)
         w, h, r = m.get('w'), m.get('h'), _size_from_model(m, cfg)
         bad, det = self._run(sh, ce, shape, pos, r, rot, ang, ratio, w, h)
+        if 'ratio-0-not-centre' in bad:
+            det.update(pos=pos, angle=ang, ratio=ratio)
+            return dict(reproduced=True,
+                        key='C19/get_border_point/ratio=0', detail=det)
         cls = {'hex': 'Cell', 'square': 'CellSquare', '3sec': 'Cell3Sec',
                'rect': 'Rectangle'}[shape]
         if shape == 'rect':
@@ -1310,11 +1326,74 @@ class RandomUser(Harness):
                                 min_dist_ratio=mdr, draws=_draws(m), user=u,
                                 margin_rel=mg, vertices=V))
 
+    @staticmethod
+    def _in_polygon(V, p, eps=1e-9):
+        """even-odd ray casting (non-convex outline), points within eps of
+        the boundary count as inside"""
+        if f_boundary_dist(V, p) <= eps:
+            return True
+        x, y = p.real, p.imag
+        inside = False
+        n = len(V)
+        for i in range(n):
+            a, b = V[i], V[(i + 1) % n]
+            if (a.imag > y) != (b.imag > y):
+                xc = a.real + (y - a.imag) * (b.real - a.real) / (
+                    b.imag - a.imag)
+                if x < xc:
+                    inside = not inside
+        return inside
+
+    def _three_sector_probe(self, rng):
+        """3-sector cells after sequences of radius / position / rotation
+        changes: users placed in a sector lie inside the cell's own outline
+        (placement goes through matplotlib, outside the solver part)"""
+        from pysym.runner import ConcreteViolation
+        ce = repo_module(CE)
+        n = 0
+        for trial in range(12):
+            C = ce.Cell3Sec(complex(rng.uniform(-3, 3), rng.uniform(-3, 3)),
+                            10**rng.uniform(-1, 1), 1, rng.uniform(-180, 180))
+            hist = []
+            for _ in range(rng.randrange(0, 4)):
+                op = rng.choice(['radius', 'pos', 'rotation'])
+                if op == 'radius':
+                    v = C.radius * 10**rng.uniform(-0.7, 0.5)
+                    C.radius = v
+                elif op == 'pos':
+                    v = complex(rng.uniform(-3, 3), rng.uniform(-3, 3))
+                    C.pos = v
+                else:
+                    v = rng.uniform(-180, 180)
+                    C.rotation = v
+                hist.append((op, v))
+            for sec in (None, 1, 2, 3):
+                C.add_random_users_in_sector(20, sec) if sec is not None \
+                    else C.add_random_users(20)
+            V = [complex(v) for v in C.vertices]
+            size = max(abs(v - C.pos) for v in V)
+            out = [complex(u.pos) for u in C.users
+                   if not self._in_polygon(V, complex(u.pos), 1e-9 * size)]
+            if out:
+                raise ConcreteViolation(
+                    'C19/Cell3Sec.add_random_users_in_sector/outside-after-'
+                    'setter-history', dict(history=hist, radius=C.radius,
+                                           pos=complex(C.pos),
+                                           rotation=C.rotation,
+                                           users_outside=out[:3],
+                                           count=len(out)))
+            n += 1
+        return n
+
     def concrete(self, cfg, rng):
         """seeded global RNG; axis-aligned squares and any hexagon"""
         ce = repo_module(CE)
         np.random.seed(rng.randrange(2**31))
         n = 0
+        if cfg['cell'] != 'square' and cfg.get('probe3', True) and \
+                not getattr(self, '_probed', False):
+            self._probed = True
+            n += self._three_sector_probe(rng)
         for _ in range(30):
             pos = complex(rng.uniform(-5, 5), rng.uniform(-5, 5))
             r = 10**rng.uniform(-2, 2)
